@@ -19,9 +19,9 @@ CLIENT_FAMILIES = {
     "calculator": ["mk", "ar", "ar", "cv", "cmp"],
     "inspector": ["lk", "fmt", "mk.q", "cmp", "cp"],
     "validator": ["val", "val", "mk", "fmt"],
-    "persister": ["cp", "cp", "mk", "cv"],
-    "curator": ["curve", "fixed", "fixed", "mk"],
-    "saboteur": ["flt"],
+    "persister": ["cp", "cp", "mk", "cv", "gc"],
+    "curator": ["curve", "fixed", "fixed", "mk", "gc"],
+    "saboteur": ["flt", "flt", "flt", "flt", "flt", "flt", "gc"],
     "registrar": ["reg"],
 }
 
@@ -368,7 +368,7 @@ class ValueGen:
                 not op.get("f")
                 and self.cfg.get("intr_rate", 0) > 0
                 and rng.random() < self.cfg["intr_rate"]
-                and not op["k"].startswith(("curve.set", "flt.", "caller.", "reg."))
+                and not op["k"].startswith(("curve.set", "flt.", "caller.", "reg.", "gc."))
             ):
                 op["intr"] = int(min(400, max(1, rng.expovariate(1.0 / self.cfg.get("intr_mean", 40)))))
                 op["f"] = "F7.interrupt"
@@ -435,7 +435,7 @@ class ValueGen:
             elif (
                 not op.get("f")
                 and self.cfg.get("peer_rate", 0) > 0
-                and not op["k"].startswith(("curve.set", "caller.", "reg."))
+                and not op["k"].startswith(("curve.set", "caller.", "reg.", "gc."))
                 and rng.random() < self.cfg["peer_rate"]
                 and self.peer_units_live()
             ):
@@ -923,6 +923,17 @@ class ValueGen:
             u1, u2 = self.unit_of(b), self.unit_of(b)
             tc = b[0] if rng.random() < 0.5 else self.cat_of(b)
             rr = rng.random()
+            if rng.random() < 0.12 and len(self.basis) >= 2:
+                # the all-accepting quantity type 'Unknown' (exempt by design): any pair of units
+                # passes - and must not make the same pair pass under a real quantity type later
+                b2 = rng.choice([x for x in self.basis if x[0] != b[0]])
+                v = self.value() if rng.random() < 0.3 else self.container(kinds=("L", "N", "N"))
+                ua, ub = rng.choice(list(b[1])), rng.choice(list(b2[1]))
+                if not getattr(self, "plan", None) and "convert" in (self.cfg.get("flt_kinds") or ["convert"]):
+                    cat = self.cat_of(b)
+                    bad = self.op("flt.incompatible.cv.db.Convert.after_unknown", "db", "Convert", [cat, ua, ub, v], f="F1.incompatible", x=[{"o": "reject", "p": "C05", "id": "C05.loud", "why": "catunit", "category": cat, "unit": ub}])
+                    self.plan = [dict(bad, c="saboteur")]
+                return self.op("cv.db.Convert.unknown_type", "db", "Convert", ["Unknown", ua, ub, v])
             if rr < 0.45:
                 return self.op("cv.db.Convert.float", "db", "Convert", [tc, u1, u2, self.value()])
             if rr < 0.8:
@@ -1070,6 +1081,18 @@ class ValueGen:
             return o
         n = _len(cv[1].GetImage())
         side = rng.choice(["SetImage", "SetDomain", "image", "domain"])
+        if rng.random() < 0.12:
+            # values without a length: a 0-d ndarray or an iterator (built for this call only)
+            b = self.qt()
+            vals = {"N": [self.value()], "dt": "float64", "sh": []} if rng.random() < 0.6 else {"G": draw_vals(rng, n)}
+            new = {"new": "Array", "a": [vals, self.unit_of(b)]}
+            if side in ("SetImage", "SetDomain"):
+                o = self.op("flt.bad_arg.curve.set." + side + ".unsized", ref(cv[0]), side, [new])
+            else:
+                o = self.op("flt.bad_arg.curve.set." + side + ".unsized", "py", "setattr", [ref(cv[0]), side, new])
+            o["f"] = "F1.bad_arg"
+            o["x"] = [{"o": "curve_set", "p": "C11", "id": "C11.curve_atomic", "side": "image" if side in ("SetImage", "image") else "domain", "unsized": True}]
+            return o
         want_bad = rng.random() < 0.45
         cands = sim.live(lambda v: isinstance(v, u.Array) and ((_len(v) != n) if want_bad else (_len(v) == n)))
         if not cands:
@@ -1084,6 +1107,51 @@ class ValueGen:
             o["f"] = "F1.bad_arg"
             o["k"] = "flt.bad_arg." + o["k"]
         return o
+
+    # --------------------------------------------------------------- gc: short-lived objects
+    def g_gc(self, sim):
+        """A loop over short-lived values: the same closed calls with all objects kept alive and
+        with every object dropped right after its call (address reuse).  The items alternate between
+        two quantity types, repeat one target unit and never repeat an amount."""
+        rng = self.rng
+        if len(self.basis) < 2:
+            return None
+        b1, b2 = rng.sample(self.basis, 2)
+        if len(b1[1]) < 2:
+            b1, b2 = b2, b1
+        if len(b1[1]) < 2:
+            return None
+        u1, u1b = rng.sample(list(b1[1]), 2)
+        u2 = rng.choice(list(b2[1]))
+        c1, c2 = rng.choice(list(b1[2])), rng.choice(list(b2[2]))
+        flavour = rng.choice(["q_csv", "q_conv", "s_get", "fa_index", "fa_change", "a_get", "add", "fs_get"])
+        n = rng.randint(5, 12)
+        items = []
+        base = float(rng.randint(1, 40))
+        for j in range(n):
+            v = base + 1.25 * j
+            other = j % 2 == 1 and rng.random() < 0.8
+            u, c = (u2, c2) if other else (u1, c1)
+            d = rng.choice([2, 3])
+            V = {rng.choice(["L", "T"]): [v + 0.5 * k for k in range(d)]} if rng.random() < 0.6 else {"N": [v + 0.5 * k for k in range(d)], "dt": "float64"}
+            if flavour == "q_csv":
+                it = {"t": {"new": "Quantity", "a": [c, u]}, "m": "ConvertScalarValue", "a": [v, u1b]}
+            elif flavour == "q_conv":
+                it = {"t": {"new": "Quantity", "a": [c, u]}, "m": "Convert", "a": [V, u1b]}
+            elif flavour == "s_get":
+                it = {"t": {"new": "Scalar", "a": [v, u]}, "m": "GetValue", "a": [u1b]}
+            elif flavour == "fs_get":
+                it = {"t": {"new": "FractionScalar", "a": [{"FV": [v, [1, 2]]}, u]}, "m": "GetValue", "a": [u1b]}
+            elif flavour == "fa_index":
+                it = {"t": {"new": "FixedArray", "a": [d, V, u]}, "m": "IndexAsScalar", "a": [rng.randrange(d), u1b]}
+            elif flavour == "fa_change":
+                it = {"t": {"new": "FixedArray", "a": [d, V, u]}, "m": "ChangingIndex", "a": [rng.randrange(d), {"T": [v * 2, u1b]}]}
+            elif flavour == "a_get":
+                it = {"t": {"new": "Array", "a": [V, u]}, "m": "GetValues", "a": [u1b]}
+            else:
+                it = {"fn": rng.choice(["add", "sub", "lt"]), "a": [{"new": "Scalar", "a": [v, u1b]}, {"new": "Scalar", "a": [v + 1, u]}]}
+            items.append(it)
+        return self.op("gc.loop." + flavour, "py", "lifetime_burst", [{"J": items}], x=[{"o": "lifetime", "p": self.cfg.get("prop", "C05"), "id": self.cfg.get("prop", "C05") + ".gc_independent"}])
 
     # --------------------------------------------------------------- val / fmt / lk / cp
     def g_val(self, sim):
@@ -1694,6 +1762,10 @@ class ValueGen:
         o["k"] = "flt.bad_arg." + o["k"]
         o["x"] = spec
         return o
+
+
+def draw_vals(rng, n):
+    return [float(rng.randint(-9, 9)) for _ in range(max(n, 1))]
 
 
 def _len(a):
